@@ -9,7 +9,7 @@
 From Coq Require Import String Permutation.
 From Shk Require Import Base.Prelude Model.Storyline Model.Config.
 From Shk Require Import Proofs.ConfigText Proofs.ConfigRoles Proofs.ConfigReload Proofs.ConfigSame Proofs.ConfigParams
-  Proofs.ConfigInvariant Proofs.ConfigInvAudience Proofs.StoryScriptProofs Proofs.ConfigStory.
+  Proofs.ConfigInvariant Proofs.ConfigInvAudience Proofs.StoryScriptProofs Proofs.ConfigStory Proofs.ConfigStable.
 Open Scope Z_scope.
 
 (** [s] is built from the initial configuration (with any -D definitions) by
@@ -52,6 +52,21 @@ Proof.
   exists (canon_state orc s).
   split; [exact (reload_canon orc Horc s Hwf Hpr)|].
   split; [exact (same_play_canon orc s Hwf)|exact (print_equiv_canon orc s Hwf)].
+Qed.
+
+(** The property applies to the printed configuration itself: the reloaded
+    state is reachable (the printed clauses are an accepted clause list) and
+    printable again, so its own printed form reloads too. *)
+Theorem c10_reload_stable :
+  forall orc s, oracle_ok orc -> reachable orc s -> printable s = true ->
+  exists s', reload orc s = Ok s' /\ reachable orc s' /\ printable s' = true /\ reloads orc s'.
+Proof.
+  intros orc s Horc Hreach Hpr. pose proof (c10_reachable_wf orc s Hreach) as Hwf.
+  pose proof (reload_canon orc Horc s Hwf Hpr) as Hr.
+  assert (Hreach' : reachable orc (canon_state orc s)) by (exists [], (print orc s); exact Hr).
+  pose proof (printable_canon orc s Hwf Hpr) as Hpr'.
+  exists (canon_state orc s). repeat split; auto.
+  apply c10_reload_partial; assumption.
 Qed.
 
 (** [story_printable] is no finding but an invariant: with the C06 theorems
